@@ -637,44 +637,72 @@ def rule_fresh(ctx) -> RuleResult:
                          f"{fn.module.relpath}:{st.lineno}",
                          "the writer's no-data substitution is applied to the very array the entity / concatenator holds in memory: other holes "
                          "reading the shared array see 1.17549435e-38 instead of NaN in the same session")
-    # (b) Concatenator.copy
-    cp = nview(ctx, "Concatenator.copy")
-    # role: the copy = the local bound from super().copy(...) (and returned)
-    cp_roles = {nm: "new_entity" for nm in bound_from(cp.node, lambda e: isinstance(e, ast.Call) and unparse(e.func) in ("super().copy", "super(Concatenator, self).copy"))}
-    if not cp_roles:
-        cp_roles = {nm: "new_entity" for nm in returned_names(cp.node)}
-    csc = Scope(cp, p, keep=cp_roles)
-    unparse_cp = lambda n: canon(csc.expand(n), cp_roles)  # noqa: E731
-    sinks = []
-    for a in ast.walk(cp.node):
-        if isinstance(a, ast.Assign):
-            tg = a.targets[0].elts if isinstance(a.targets[0], ast.Tuple) else [a.targets[0]]
-            vs = a.value.elts if isinstance(a.targets[0], ast.Tuple) and isinstance(a.value, ast.Tuple) and len(a.value.elts) == len(tg) else [a.value] * len(tg)
-            for t, v in zip(tg, vs):
-                if isinstance(t, ast.Subscript) and unparse_cp(t.value) in ("new_entity.data", "new_entity.index"):
-                    sinks.append((t, a, v))
-    if not sinks:
+    # (b) the copy of a Concatenator: wherever a method of the class fills the tables of ANOTHER concatenator (`<other>.data[k] = ..`,
+    # `<other>.index[k] = ..` — Concatenator.copy itself, or a hook of the copy protocol that receives the copy as a parameter)
+    conc = p.cls("Concatenator")
+
+    def other_tables(fn):
+        """(sinks, names of the other concatenator) in one method."""
+        d = Scope(fn, p).defs
+        me = fn.params[0] if fn.params else "self"
+
+        def through(e):
+            for _ in range(6):
+                if isinstance(e, ast.Name) and d.single(e.id) is not None and isinstance(d.single(e.id), (ast.Name, ast.Attribute)):
+                    e = d.single(e.id)
+                else:
+                    break
+            return e
+
+        sinks, others = [], set()
+        for a in ast.walk(fn.node):
+            if isinstance(a, ast.Assign):
+                tg = a.targets[0].elts if isinstance(a.targets[0], ast.Tuple) else [a.targets[0]]
+                vs = a.value.elts if isinstance(a.targets[0], ast.Tuple) and isinstance(a.value, ast.Tuple) and len(a.value.elts) == len(tg) else [a.value] * len(tg)
+                for t, v in zip(tg, vs):
+                    if not isinstance(t, ast.Subscript):
+                        continue
+                    tab = through(t.value)
+                    if isinstance(tab, ast.Attribute) and tab.attr in ("data", "index", "_data", "_index"):
+                        owner = through(tab.value)
+                        if isinstance(owner, ast.Name) and owner.id != me:
+                            sinks.append((t, a, v))
+                            others.add(owner.id)
+        return sinks, others
+
+    sites = []
+    for nm, m in conc.methods.items():
+        if m.cls is conc:
+            v_ = nview(ctx, m)
+            sk, others = other_tables(v_)
+            if sk:
+                sites.append((v_, sk, others))
+    if not sites:
         raise AnalysisError("Concatenator.copy: stores into new_entity.data / .index not found")
-    for t, a, v in sinks:
-        srcs = csc.sources(v)
-        ok = bool(srcs) and all((isinstance(s, ast.Call) and (call_name(s) == "fetch_concatenated_values" or is_fresh(s))) for s in srcs)
-        res.inst(f"Concatenator.copy:{a.lineno} {unparse(t)[:40]} <- {[unparse(s)[:50] for s in srcs]}", nontrivial=True, ok=ok)
-        if not ok:
-            res.find("Concatenator", "copy", f"{canon(t, cp_roles)[:40]} filled from {unparse(v)[:40]}", f"{cp.module.relpath}:{a.lineno}",
-                     "the copy's concatenated tables are the source's own arrays: removing or updating an entry in the copy shifts the start "
-                     "indices of the source in place")
-    for a in ast.walk(cp.node):
-        if not (isinstance(a, ast.Assign) and isinstance(a.targets[0], ast.Attribute) and unparse_cp(a.targets[0].value) == "new_entity"):
-            continue
-        val = csc.expand(a.value)
-        if isinstance(val, ast.Attribute) and unparse(val.value) == "self":
-            ok = False
-            res.inst(f"Concatenator.copy:{a.lineno} {unparse(a)[:70]} (source's own container handed to the copy)", nontrivial=True, ok=ok)
-            res.find("Concatenator", "copy", f"{canon(a.targets[0], cp_roles)} shares the source's {val.attr} container", f"{cp.module.relpath}:{a.lineno}",
-                     f"the copy's {a.targets[0].attr} is the source's own dict / list: adding or removing entities in the copy edits the source's "
-                     "records in place (and its file at the next close)")
-        elif "self." in unparse(val):
-            res.inst(f"Concatenator.copy:{a.lineno} {unparse(a)[:70]} (copied)", nontrivial=True, ok=is_fresh(val) or unparse(val).startswith(("deepcopy(", "list(", "dict(")))
+    for cp, sinks, others in sites:
+        cp_roles = {nm: "new_entity" for nm in others}
+        csc = Scope(cp, p, keep=cp_roles)
+        unparse_cp = lambda n, csc=csc, cp_roles=cp_roles: canon(csc.expand(n), cp_roles)  # noqa: E731
+        for t, a, v in sinks:
+            srcs = csc.sources(v)
+            ok = bool(srcs) and all((isinstance(s, ast.Call) and (call_name(s) == "fetch_concatenated_values" or is_fresh(s))) for s in srcs)
+            res.inst(f"Concatenator.{cp.name}:{a.lineno} {unparse(t)[:40]} <- {[unparse(s)[:50] for s in srcs]}", nontrivial=True, ok=ok)
+            if not ok:
+                res.find("Concatenator", "copy", f"{canon(t, cp_roles)[:40]} filled from {unparse(v)[:40]}", f"{cp.module.relpath}:{a.lineno}",
+                         "the copy's concatenated tables are the source's own arrays: removing or updating an entry in the copy shifts the start "
+                         "indices of the source in place")
+        for a in ast.walk(cp.node):
+            if not (isinstance(a, ast.Assign) and isinstance(a.targets[0], ast.Attribute) and unparse_cp(a.targets[0].value) == "new_entity"):
+                continue
+            val = csc.expand(a.value)
+            if isinstance(val, ast.Attribute) and unparse(val.value) == "self":
+                ok = False
+                res.inst(f"Concatenator.{cp.name}:{a.lineno} {unparse(a)[:70]} (source's own container handed to the copy)", nontrivial=True, ok=ok)
+                res.find("Concatenator", "copy", f"{canon(a.targets[0], cp_roles)} shares the source's {val.attr} container", f"{cp.module.relpath}:{a.lineno}",
+                         f"the copy's {a.targets[0].attr} is the source's own dict / list: adding or removing entities in the copy edits the source's "
+                         "records in place (and its file at the next close)")
+            elif "self." in unparse(val):
+                res.inst(f"Concatenator.{cp.name}:{a.lineno} {unparse(a)[:70]} (copied)", nontrivial=True, ok=is_fresh(val) or unparse(val).startswith(("deepcopy(", "list(", "dict(")))
     # (c) no cast of the stored values
     ua = nview(ctx, "Concatenator.update_array_attribute")
     usc = Scope(ua, p)
@@ -823,6 +851,17 @@ def rule_skip(ctx) -> RuleResult:
     valued = {a.targets[0].id if isinstance(a.targets[0], ast.Name) else None for a in ast.walk(ua.node)
               if isinstance(a, ast.Assign) and isinstance(a.value, ast.Call) and getattr(a.value.func, "id", None) == "getattr"}
     valued |= {nm for n in stores for x in ast.walk(n.ast.value) if isinstance(x, ast.Name) for nm in [x.id] if usc.defs.rebound(nm)}
+    # ... and the locals those values flow from (temporaries, parameters of expanded helpers, fields of a record built on the way)
+    work = list(valued)
+    while work:
+        nm = work.pop()
+        if not nm:
+            continue
+        for v in usc.defs.of(nm) + (usc.sources(ast.Name(id=nm, ctx=ast.Load())) if nm not in usc.defs.params else []):
+            for x in ast.walk(v):
+                if isinstance(x, ast.Name) and x.id not in valued and x.id not in usc.defs.params and usc.defs.rebound(x.id):
+                    valued.add(x.id)
+                    work.append(x.id)
     facts = {"notnone:" + nm: True for nm in valued if nm}
     if len(ua.params) > 3:
         facts.update({"truthy:" + ua.params[3]: False})
